@@ -1,6 +1,8 @@
 //@ unit buf_ensureCapacity
 //@ props C01
 //@ kind P
+//@ def quick MAXCAP=6
+//@ def thorough MAXCAP=24
 //@ enforce XMLBuffer_ensureCapacity
 //@ replace XMLBufferFullHandler_bufferFull
 //@ entry h_buf_ensureCapacity
@@ -23,7 +25,7 @@ void h_buf_ensureCapacity(void)
 {
   XMLSize_t extra, alloc_extra;
   VERIF_INPUT(SELF); VERIF_INPUT(extra); VERIF_INPUT(GA); VERIF_INPUT(alloc_extra);
-  VERIF_ASSUME(fCapacity <= 2 * VERIF_BUFLEN_MAX && alloc_extra <= 16);
+  VERIF_ASSUME(fCapacity <= MAXCAP && alloc_extra <= 2 && extra <= MAXCAP && fFullSize <= 3 * MAXCAP);
   /* setFullHandler may lower fCapacity below the allocated size: the object has (fCapacity + 1 + alloc_extra) characters */
   fBuffer = malloc((fCapacity + 1 + alloc_extra) * sizeof(XMLCh));
   VERIF_ASSUME(fBuffer != 0);
